@@ -1,9 +1,284 @@
-"""nested-dict (Val) operations -- filled in later"""
+"""Nested dictionaries (contexts) as the SMT datatype  Val = S(sid) | D(Array Key Opt),  Opt = none | some(Val).
+
+Dict equality is structural and order-free like Python's; scalars are abstract equivalence classes under `==`
+(`truthy_s` gives their truth value).  Iterating a dict visits an arbitrary not-yet-seen key (ghost `$seen`)."""
+import ast
+
+from .smt import T, TRUE, FALSE, I, NOT, AND, OR, IMP, EQ, ITE
+from .sym import (Num, Bool, NoneV, NONE, Str, Opaque, Tup, Ref, View, Fun, ValCell, PyDictCell, State)
+
+
 def U(msg):
     from .interp import Unsupported
     return Unsupported(msg)
-def val_method(ip, st, recv, name, pos, kws): raise U("Val method " + name)
-def key_method(ip, st, recv, name, pos, kws): raise U("Key method " + name)
-def val_store(ip, s, base, idx, v): raise U("Val store")
-def val_delete(ip, s, base, idx): raise U("Val delete")
-def for_dict(ip, s, st, itv, k, spec, mode=None): raise U("for over dict")
+
+
+# --------------------------------------------------------------------------- terms
+def dterm(ip, st, v):
+    """Val term of a dict-like / scalar value"""
+    if isinstance(v, Opaque) and v.sort == "Val":
+        return v.t
+    if isinstance(v, Ref) and isinstance(st.heap[v.cid], ValCell):
+        return ip.deref(st, v)
+    if isinstance(v, Ref) and isinstance(st.heap[v.cid], PyDictCell):
+        items = st.heap[v.cid].items
+        m = "emptymap"
+        for k, x in items.items():
+            m = "(store %s %s (some %s))" % (m, ip.reg.key(k).s, dterm(ip, st, x).s)
+        ip.reg.need_val()
+        return T("(D %s)" % m, "Val")
+    return scalar(ip, st, v)
+
+
+def scalar(ip, st, v):
+    """python scalars as abstract ids: one id per class of `==`-equal constants"""
+    reg = ip.reg
+    reg.need_val()
+    if isinstance(v, NoneV):
+        key, truthy = "None", False
+    elif isinstance(v, Str):
+        key, truthy = "str:" + v.s, bool(v.s)
+    elif isinstance(v, (Num, Bool)):
+        from .smt import lit_int
+        t = ip.num(v)
+        k = lit_int(t)
+        if k is None:
+            raise U("symbolic number stored into a context dictionary")
+        key, truthy = "num:%d" % k, k != 0
+    elif isinstance(v, Opaque) and v.sort == "Key":
+        f = reg.ufun("key_as_val", ["Key"], "Val")
+        return T("(%s %s)" % (f, v.t.s), "Val")
+    else:
+        raise U("value %r stored into a context dictionary" % (v,))
+    tab = getattr(reg, "_scalars", None)
+    if tab is None:
+        tab = reg._scalars = {}
+    if key not in tab:
+        n = 1000 + len(tab)
+        tab[key] = n
+        reg.axioms.append(T("(truthy_s %d)" % n, "Bool") if truthy else T("(not (truthy_s %d))" % n, "Bool"))
+    return T("(S %d)" % tab[key], "Val")
+
+
+def need_dict(ip, st, t, what):
+    """obligation / TypeError fork: t is a dictionary"""
+    isd = T("(isD %s)" % t.s, "Bool")
+    if ip.spec_mode or ip.known(st, isd) or t.s.startswith("(D "):
+        return st
+    if ip.may_catch(st, "TypeError"):
+        bad = st.fork(NOT(isd), "te.")
+        ip.raise_(bad, "TypeError")
+    else:
+        ip.emit("safety", what + "-on-dict", st, isd)
+    st.assume(isd)
+    return st
+
+
+# --------------------------------------------------------------------------- stores
+def val_store(ip, s, base, idx, v):
+    cur = ip.deref(s, base)
+    need_dict(ip, s, cur, "item-store")
+    k = ip.key_term(idx)
+    new = T("(D (store (dm %s) %s (some %s)))" % (cur.s, k.s, dterm(ip, s, v).s), "Val")
+    ip.store(s, base, new)
+    return [s]
+
+
+def val_delete(ip, s, base, idx):
+    cur = ip.deref(s, base)
+    need_dict(ip, s, cur, "item-delete")
+    k = ip.key_term(idx)
+    has = T("(vhas %s %s)" % (cur.s, k.s), "Bool")
+    if not ip.known(s, has):
+        if ip.may_catch(s, "KeyError"):
+            bad = s.fork(NOT(has), "ke.")
+            ip.raise_(bad, "KeyError")
+        else:
+            ip.emit("safety", "del-key-present", s, has)
+        s.assume(has)
+    ip.store(s, base, T("(D (store (dm %s) %s none))" % (cur.s, k.s), "Val"))
+    return [s]
+
+
+# --------------------------------------------------------------------------- methods
+def val_method(ip, st, recv, name, pos, kws):
+    t = dterm(ip, st, recv)
+    if name == "get":
+        need_dict(ip, st, t, "get")
+        k = ip.key_term(pos[0])
+        has = T("(vhas %s %s)" % (t.s, k.s), "Bool")
+        got = Opaque(T("(vget %s %s)" % (t.s, k.s), "Val"))
+        if len(pos) > 1:
+            dflt = pos[1]
+            if isinstance(dflt, Opaque) and dflt.sort == "Val":
+                return [(st, Opaque(ITE(has, got.t, dflt.t)))]
+            outs = [(st.fork(has, "g."), got), (st.fork(NOT(has), "d."), dflt)]
+            return outs
+        # d.get(k) -> None when absent: callers in this code base test the result with isinstance(..., dict)
+        nonev = scalar(ip, st, NONE)
+        return [(st, Opaque(ITE(has, got.t, nonev)))]
+    if name in ("keys", "items", "values"):
+        need_dict(ip, st, t, name)
+        return [(st, Fun("dictview", recv=recv, name=name))]
+    if name == "copy":
+        need_dict(ip, st, t, "copy")
+        return [(st, ip.new_cell(st, ValCell(t)))]
+    if name == "pop" and isinstance(recv, Ref):
+        need_dict(ip, st, t, "pop")
+        k = ip.key_term(pos[0])
+        has = T("(vhas %s %s)" % (t.s, k.s), "Bool")
+        got = Opaque(T("(vget %s %s)" % (t.s, k.s), "Val"))
+        removed = T("(D (store (dm %s) %s none))" % (t.s, k.s), "Val")
+        outs = []
+        a = st.fork(has, "p.")
+        ip.store(a, recv, removed)
+        outs.append((a, got))
+        b = st.fork(NOT(has), "q.")
+        if len(pos) > 1:
+            outs.append((b, pos[1]))
+        elif ip.may_catch(b, "KeyError"):
+            ip.raise_(b, "KeyError")
+        else:
+            ip.emit("safety", "pop-key-present", b, FALSE)
+        return outs
+    if name == "update" and isinstance(recv, Ref):
+        need_dict(ip, st, t, "update")
+        o = dterm(ip, st, pos[0])
+        need_dict(ip, st, o, "update-arg")
+        f = ip.reg.ufun("dict_update", ["Val", "Val"], "Val")
+        new = T("(%s %s %s)" % (f, t.s, o.s), "Val")
+        # d.update(o): keys of o overwrite, the other keys stay
+        q = T("uk%d" % next(ip.bound), "Key")
+        st.assume(T("(isD %s)" % new.s, "Bool"))
+        st.assume(T("(forall ((%s Key)) (! (= (select (dm %s) %s) (ite (vhas %s %s) (select (dm %s) %s) (select (dm %s) %s))) "
+                    ":pattern ((select (dm %s) %s))))" % (q.s, new.s, q.s, o.s, q.s, o.s, q.s, t.s, q.s, new.s, q.s), "Bool"))
+        ip.store(st, recv, new)
+        return [(st, NONE)]
+    raise U("dict method " + name)
+
+
+def key_method(ip, st, recv, name, pos, kws):
+    """methods of a symbolic string used as a (dotted) key"""
+    reg = ip.reg
+    if name == "split" and len(pos) == 1 and isinstance(pos[0], Str) and pos[0].s == ".":
+        # s.split("."): the list of components -- never empty; a string without dots is its own single component
+        sort = reg.lst("Key")
+        f = reg.ufun("ksplit", ["Key"], sort)
+        t = T("(%s %s)" % (f, recv.t.s), sort)
+        st.assume(T("(>= %s 1)" % reg.l_len(t).s, "Bool"))
+        st.assume(T("(=> (= %s 1) (= %s %s))" % (reg.l_len(t).s, reg.l_get(t, I(0)).s, recv.t.s), "Bool"))
+        ip.assumptions.add("str.split('.') returns a non-empty list of components; a string without dots is its only component")
+        return [(st, ip.new_cell(st, LstCellOf(t)))]
+    raise U("str method %s on a symbolic key" % name)
+
+
+def LstCellOf(t):
+    from .sym import LstCell
+    return LstCell(t)
+
+
+# --------------------------------------------------------------------------- iteration
+SEEN = "(Array Key Bool)"
+
+
+def for_dict(ip, s, st, itv, k, spec, mode=None):
+    """for key in d / for key, value in d.items(): an arbitrary not-yet-visited key per iteration; ghost `$seen`"""
+    from .stmts import (check_invariants, assume_invariants, havoc_loop, exec_block, assign_to)
+    reg = ip.reg
+    reg.need_val()
+    dt0 = dterm(ip, st, itv)
+    need_dict(ip, st, dt0, "iteration")
+    st.env["$seen"] = Opaque(T("((as const %s) false)" % SEEN, SEEN))
+    check_invariants(ip, k, spec, st, "init")
+    h = st.fork(None, "L%s:" % k)
+    havoc_loop(ip, s, h, spec, s.body)
+    dt = dterm(ip, h, itv)
+    if dt.s != dt0.s:
+        raise U("loop #%s mutates the dictionary it iterates" % k)
+    seen = reg.new("seen", SEEN)
+    q = T("sk%d" % next(ip.bound), "Key")
+    h.assume(T("(forall ((%s Key)) (! (=> (select %s %s) (vhas %s %s)) :pattern ((select %s %s))))"
+               % (q.s, seen.s, q.s, dt.s, q.s, seen.s, q.s), "Bool"))
+    h.env["$seen"] = Opaque(seen)
+    assume_invariants(ip, spec, h)
+    ip.assumptions.add("dict iteration: an arbitrary unvisited key per step, finitely many keys (termination of loops over "
+                       "dictionaries is not an obligation)")
+    outs = []
+    # ---- one iteration
+    b = h.fork(None, "V.")
+    key = reg.new("key", "Key")
+    b.assume(T("(vhas %s %s)" % (dt.s, key.s), "Bool"))
+    b.assume(NOT(T("(select %s %s)" % (seen.s, key.s), "Bool")))
+    kv = Opaque(key)
+    if mode in (None, "keys"):
+        val = kv
+    elif mode == "items":
+        val = Tup([kv, Opaque(T("(vget %s %s)" % (dt.s, key.s), "Val"))])
+    else:
+        val = Opaque(T("(vget %s %s)" % (dt.s, key.s), "Val"))
+    for s3 in assign_to(ip, s.target, val, b):
+        for kind, s4, payload in exec_block(ip, s.body, s3):
+            if kind in ("next", "continue"):
+                s4.env["$seen"] = Opaque(T("(store %s %s true)" % (seen.s, key.s), SEEN))
+                check_invariants(ip, k, spec, s4, "preserve")
+            elif kind == "break":
+                s4.trace += "B."
+                outs.append(("next", s4, None))
+            else:
+                outs.append((kind, s4, payload))
+    # ---- exit: every key has been visited
+    x = h.fork(None, "X.")
+    q2 = T("sk%d" % next(ip.bound), "Key")
+    x.assume(T("(forall ((%s Key)) (= (select %s %s) (vhas %s %s)))" % (q2.s, seen.s, q2.s, dt.s, q2.s), "Bool"))
+    outs.append(("next", x, None))
+    return outs
+
+
+# --------------------------------------------------------------------------- special forms of the contract language
+def _sf_seen(ip, e, st):
+    k = ip.key_term(ip.ev1(e.args[0], st))
+    return Bool(T("(select %s %s)" % (st.env["$seen"].t.s, k.s), "Bool"))
+
+
+def _sf_all_keys(ip, e, st):
+    """all_keys(lambda k: body): body holds for every key (universal quantifier over the Key sort)"""
+    lam = e.args[0]
+    if not isinstance(lam, ast.Lambda) or len(lam.args.args) != 1:
+        raise U("all_keys expects a one-argument lambda")
+    ip.reg.need_val()
+    q = T("ak%d" % next(ip.bound), "Key")
+    s2 = State.__new__(State)
+    s2.__dict__.update(st.__dict__)
+    s2.env = dict(st.env)
+    s2.env[lam.args.args[0].arg] = Opaque(q)
+    body = ip.truth(s2, ip.ev1(lam.body, s2))
+    return Bool(T("(forall ((%s Key)) %s)" % (q.s, body.s), "Bool"))
+
+
+def _sf_item(ip, e, st):
+    """item(d, k): the entry of d at key k as an optional value (absent() / some value)"""
+    d = dterm(ip, st, ip.ev1(e.args[0], st))
+    k = ip.key_term(ip.ev1(e.args[1], st))
+    return Opaque(T("(select (dm %s) %s)" % (d.s, k.s), "Opt"))
+
+
+def _sf_absent(ip, e, st):
+    ip.reg.need_val()
+    return Opaque(T("none", "Opt"))
+
+
+def _sf_present(ip, e, st):
+    return Opaque(T("(some %s)" % dterm(ip, st, ip.ev1(e.args[0], st)).s, "Opt"))
+
+
+def _sf_isdict(ip, e, st):
+    return Bool(T("(isD %s)" % dterm(ip, st, ip.ev1(e.args[0], st)).s, "Bool"))
+
+
+def _sf_emptydict(ip, e, st):
+    ip.reg.need_val()
+    return Opaque(T("(D emptymap)", "Val"))
+
+
+FORMS = {"seen": _sf_seen, "all_keys": _sf_all_keys, "item": _sf_item, "absent": _sf_absent, "present": _sf_present,
+         "isdict": _sf_isdict, "emptydict": _sf_emptydict}
